@@ -269,6 +269,12 @@ def aabb_case(draw):
     dim = draw(st.sampled_from([1, 2, 2, 3, 3, 3, 4]))
     b1 = draw(box_st(mode, dim))
     b2 = draw(box_st(mode, dim, pool=b1[0] + b1[1]))
+    nest = draw(st.sampled_from(["no"] * 7 + ["inside", "around", "equal"]))          # one operand contains the other
+    if nest != "no" and all(l <= h for l, h in zip(*b1)):
+        q = [(h - l) / 4 for l, h in zip(*b1)]
+        b2 = {"inside": [[l + x for l, x in zip(b1[0], q)], [h - x for h, x in zip(b1[1], q)]],
+              "around": [[l - x - 1.0 for l, x in zip(b1[0], q)], [h + x + 1.0 for h, x in zip(b1[1], q)]],
+              "equal": [list(b1[0]), list(b1[1])]}[nest]
     delta = draw(st.sampled_from([1.0, 0.5, 2.0, 0.125])) if mode != "float" else draw(st.floats(1e-6, 50.0))
     pts = []
     intpts = draw(st.integers(0, 3)) == 0            # integer-valued points (given with an integer type) against any box
@@ -436,6 +442,8 @@ def fn_aabb(case, ctx):
     overlap = all(h >= l for l, h in zip(ilo_ref, ihi_ref))
     touching = overlap and any(h == l for l, h in zip(ilo_ref, ihi_ref))
     ctx.label("pair=" + ("inverted" if (inv1 or inv2) else "touching" if touching else "overlap" if overlap else "disjoint"))
+    if not inv1 and not inv2 and (bool(np.all(L1 <= L2) and np.all(H2 <= H1)) or bool(np.all(L2 <= L1) and np.all(H1 <= H2))):
+        ctx.label("pair-nested")
     for a, b, nm in ((box1, box2, "b1,b2"), (box2, box1, "b2,b1")):
         ok, di = gcall(ctx, "AABB.do_intersect", AABB.do_intersect, a, b)
         if ok:
